@@ -240,10 +240,10 @@ def run_harness(binp, tests, wdir, shards=NCPU, timeout=900, per_test_timeout="6
                 if ended:
                     # died between tests or before writing reset of the next one
                     t = part[done] if done < len(part) else {"id": "?"}
-                    f.write(json.dumps({"ev": "reset", "id": t["id"]}) + "\n")
+                    f.write(json.dumps({"ev": "reset", "id": t["id"]}, separators=(",", ":")) + "\n")
                     done += 1
-                f.write(json.dumps({"ev": "panic", "in": "process", "msg": "process died rc=%d" % p.returncode, "stack": p.stderr[-3000:]}) + "\n")
-                f.write(json.dumps({"ev": "end"}) + "\n")
+                f.write(json.dumps({"ev": "panic", "in": "process", "msg": "process died rc=%d" % p.returncode, "stack": p.stderr[-3000:]}, separators=(",", ":")) + "\n")
+                f.write(json.dumps({"ev": "end"}, separators=(",", ":")) + "\n")
             start = done
         shutil.rmtree(dbdir, ignore_errors=True)
         return part, op
